@@ -123,6 +123,15 @@ def instances(tier):
         add('split_edge', h_split_edge, sp, d=0, end=0)
         add('split_edge', h_split_edge, sp, d=0, end=1)
     add('split', h_split, spec('curve', (2,), ((1,),), rational=True, lo=2, hi=5), d=0)
+    for sp in (spec('curve', (2,), ((1, 1),), rational=False, lo=-1, hi=1), spec('curve', (3,), ((1,),), rational=True, lo=-2, hi=3)):
+        add('split', h_split, sp, d=0)
+        add('decompose', h_decompose, sp, ddir='u')
+    for doms in ([(-1, 1), (-2, 3)], [(0, 1), (0, 2)], [(0, 2), (0, 1)]):
+        sp = spec('surface', (2, 1), ((1,), (1,)), rational=False, doms=doms)
+        for d in (0, 1):
+            add('split', h_split, sp, timeout=1800, d=d)
+        for ddir in ('u', 'v', 'uv'):
+            add('decompose', h_decompose, sp, timeout=1800, ddir=ddir)
     surf = [((1, 2), ((1,), ())), ((2, 1), ((), (1,))), ((2, 2), ((1,), (2,))), ((3, 2), ((1, 1), (1,))), ((2, 3), ((1,), (1, 1)))]
     if quick:
         surf = surf[:3] + [((3, 2), ((1, 1), (1,)))]
